@@ -86,12 +86,14 @@ class Analysis:
         logger.debug(f"{total} top-level commands to analyze")
 
         # analyze body commands
-        delta_infty, index = Analysis.cmds(relations, 0, body, stop)
+        dg = DeltaGraph()
+        delta_infty, index = Analysis.cmds(relations, 0, body, stop, dg)
 
         # evaluate choices + calculate a bound
         evaluated, choices, bound = False, None, None
         if not delta_infty:
-            choices = relations.first.eval(Analysis.DOMAIN, index)
+            choices = relations.first.eval(
+                Analysis.DOMAIN, index, recorded=dg.recorded)
             if not choices.infinite:
                 bound = Bound().calculate(
                     relations.first.apply_choice(*choices.first))
@@ -117,7 +119,7 @@ class Analysis:
 
     @staticmethod
     def cmds(relations: RelationList, index: int, nodes: List[pr.Node],
-             stop: bool = True) -> Tuple[bool, int]:
+             stop: bool = True, dg: DeltaGraph = None) -> Tuple[bool, int]:
         """Analyze some list of commands, typically body block statements.
 
         Arguments:
@@ -131,7 +133,8 @@ class Analysis:
         """
         if not nodes:
             return False, index
-        delta_infty, total, dg = False, len(nodes), DeltaGraph()
+        delta_infty, total = False, len(nodes)
+        dg = DeltaGraph() if dg is None else dg
         for i, node in enumerate(nodes):
             logger.debug(f'computing relation...{i} of {total}')
             index, rel_list, delta_infty_ = Analysis \
